@@ -205,11 +205,20 @@ class TStr(str):
             if plain(p) in fl:
                 return fl[plain(p)]
             raise Unsupported("startswith(%r) on an atom without that flag" % p)
-        if any(is_tok(c) and tok(c)["kind"] == "atom" for c in s[:len(p)]) or has_tokens(p) and any(tok(c)["kind"] == "atom" for c in p if is_tok(c)):
-            raise Unsupported("startswith across atoms")
-        if len(p) > len(s):
-            return False
-        return s_and(*[ch_eq(x, y) for x, y in zip(s, p)])
+        conds = []
+        for i, pc in enumerate(p):
+            if i >= len(s):
+                return False
+            sc = s[i]
+            if is_tok(sc) and tok(sc)["kind"] == "atom" or is_tok(pc) and tok(pc)["kind"] == "atom":
+                if sc == pc:
+                    continue
+                raise Unsupported("startswith across atoms")
+            c = ch_eq(sc, pc)
+            if c is False:
+                return False
+            conds.append(c)
+        return s_and(*conds)
 
     def endswith(self, p, *a):
         s = str.__str__(self)
@@ -310,3 +319,100 @@ class SymText:
             return concretize_str(self.s, m, self.atom_text)
         finally:
             Table.cur = old
+
+
+# ---------------------------------------------------------------------------
+# per-module shadows of builtins for modules that handle tokenised strings
+# ---------------------------------------------------------------------------
+_int, _float, _len = int, float, len
+
+
+class CutInsideAtom(Exception):
+    """The code under test cut a string at an offset that falls strictly inside an
+    opaque field: candidate violation (decided by replay)."""
+
+
+def _single_atom(x):
+    s = str.__str__(x)
+    if _len(s) == 1 and is_tok(s) and tok(s)["kind"] == "atom":
+        return tok(s)
+    return None
+
+
+def sym_int(x=0, *a):
+    if isinstance(x, Sym):
+        return x if isinstance(x, SNum) and x.is_int else _int(x)
+    if isinstance(x, str):
+        t = _single_atom(x)
+        if t is not None:
+            if "value" not in t:
+                raise ValueError("invalid literal for int() with base 10: %r" % t.get("name"))
+            return t["value"]
+    return _int(x, *a)
+
+
+def sym_float(x=0.0):
+    if isinstance(x, Sym):
+        return x
+    if isinstance(x, str):
+        t = _single_atom(x)
+        if t is not None:
+            if "value" not in t:
+                raise ValueError("could not convert string to float: %r" % t.get("name"))
+            return t["value"]
+    return _float(x)
+
+
+def sym_len(x):
+    if isinstance(x, TStr) or (isinstance(x, str) and has_tokens(x)):
+        return slen(x)
+    return _len(x)
+
+
+def _locate(s, pos):
+    """index into the item list of s at which the denoted offset `pos` falls; symbolic
+    offsets are located by asking the solver which item boundary they equal."""
+    n = _len(s)
+    if not isinstance(pos, Sym):
+        if all(not isinstance(item_len(c), Sym) and item_len(c) == 1 for c in s):
+            return pos
+        p = pos
+        if p < 0:
+            raise Unsupported("negative offset into a string with atoms")
+    cum = [0]
+    for c in s:
+        cum.append(item_len(c) + cum[-1])
+    ctx = core.Ctx.cur
+    # past the end -> clamp like Python slicing
+    for k in range(n + 1):
+        c = (pos == cum[k])
+        if c is True:
+            return k
+        if c is False:
+            continue
+        if ctx.decide(core._z(c)):
+            return k
+    beyond = pos > cum[n]
+    if beyond is True or (beyond is not False and ctx.decide(core._z(beyond))):
+        return n
+    raise CutInsideAtom("offset %s falls inside an opaque field of %r" % (pos, s))
+
+
+_old_getitem = TStr.__getitem__
+
+
+def _getitem(self, k):
+    if isinstance(k, slice) and (isinstance(k.start, Sym) or isinstance(k.stop, Sym)
+                                 or (has_tokens(self) and any(isinstance(item_len(c), Sym) for c in str.__str__(self)))):
+        if k.step is not None:
+            raise Unsupported("stepped slice of a tokenised string")
+        s = str.__str__(self)
+        a = 0 if k.start is None else _locate(s, k.start)
+        b = _len(s) if k.stop is None else _locate(s, k.stop)
+        return TStr(s[a:b])
+    if isinstance(k, Sym):
+        k = _int(k)
+    return _old_getitem(self, k)
+
+
+TStr.__getitem__ = _getitem
